@@ -43,6 +43,8 @@ type reqCall struct {
 	gotName   string
 	gotType   string
 	retStep   int
+	// when the call's context ended or will end (its deadline, or the instant of the explicit cancel if that came first)
+	ctxEndAt time.Duration
 }
 
 type vPayload struct {
@@ -216,6 +218,10 @@ func runC06(rc *RC) {
 		return
 	}
 	opts := E2Opts{S2S: ch.Chance("workload", 1, 6), Chunk: ch.Chance("workload", 1, 2)}
+	if !opts.S2S {
+		// a component's session (XEP-0114, content namespace jabber:component:accept)
+		opts.Comp = ch.Chance("workload", 1, 5)
+	}
 	strat := rc.S.ConfigureStrategy()
 	e := rc.NewE2(opts)
 	if e == nil {
@@ -249,18 +255,22 @@ func runC06(rc *RC) {
 		}
 		plans = append(plans, pl)
 	}
-	rc.Describe("strategy=%s s2s=%v chunk=%v pause=%d requesters=%d", strat, opts.S2S, opts.Chunk, rc.S.PausePerm, nReq)
+	rc.Describe("strategy=%s s2s=%v ws=%v component=%v chunk=%v pause=%d requesters=%d", strat, opts.S2S, opts.WS, opts.Comp, opts.Chunk, rc.S.PausePerm, nReq)
 	for _, c := range calls {
 		rc.Describe("%s id=%s timeout=%v cancelAt=%v read=%d", c.kind, c.id, c.timeout, c.cancelAt, c.readProg)
 	}
 
 	// handler log: every stanza that reaches the handler, with its marker
-	type seen struct{ name, id, typ, marker string }
+	type seen struct {
+		name, id, typ, marker string
+		at                    time.Duration
+		step                  int
+	}
 	var handled []seen
 	sentinelSeen := false
 	handler := xmpp.HandlerFunc(func(t xmlstream.TokenReadEncoder, start *xml.StartElement) error {
 		el := Elem{Start: *start}
-		s := seen{name: start.Name.Local, id: el.Attr("id"), typ: el.Attr("type")}
+		s := seen{name: start.Name.Local, id: el.Attr("id"), typ: el.Attr("type"), at: rc.S.Now(), step: rc.S.Steps}
 		for {
 			tok, err := t.Token()
 			if err != nil {
@@ -294,10 +304,14 @@ func runC06(rc *RC) {
 			for _, c := range pl {
 				c := c
 				ctx, cancel := context.WithTimeout(e.Ctx, c.timeout)
+				c.ctxEndAt = rc.S.Now() + c.timeout
 				if c.cancelAt > 0 {
 					rc.Spawn("canceller", func() {
 						simrt.Sleep(c.cancelAt)
 						rc.Fire("cancel")
+						if !c.done && rc.S.Now() < c.ctxEndAt {
+							c.ctxEndAt = rc.S.Now()
+						}
 						cancel()
 					})
 				}
@@ -459,6 +473,21 @@ func runC06(rc *RC) {
 	for _, h := range handled {
 		if h.marker != "" {
 			observed[h.marker] = append(observed[h.marker], "handler")
+		}
+		// c1, "or with its context's error if that comes first": a proper reply that the serve loop gave to the handler
+		// while its caller had not returned and the caller's context had not ended should have gone to the caller
+		p := byMarker[h.marker]
+		if p == nil || p.unknown || (p.typ != "result" && p.typ != "error") {
+			continue
+		}
+		for _, c := range calls {
+			if c.id != p.id || c.stanza != p.name || !c.done || c.err == nil {
+				continue
+			}
+			rc.Evals["C06.c1"]++
+			if h.step < c.retStep && h.at < c.ctxEndAt {
+				rc.Failf("C06.c1", "reply-to-handler-while-caller-waits:"+c.kind, "%s id=%s returned %v at step %d, but its reply %s <%s type=%s> had reached the handler at step %d, t=%v, while the call was waiting and its context had not ended (it ended at t=%v)", c.kind, c.id, c.err, c.retStep, p.marker, p.name, p.typ, h.step, h.at, c.ctxEndAt)
+			}
 		}
 	}
 	if sentinelSeen {
